@@ -85,6 +85,10 @@ func C06(tier string) int {
 	for _, ls := range []*linkScenario{
 		newLinkScenario("links 2x2, (op; delete) per tx", []string{"#a1", "#a2"}, []string{"#b1", "#b2"}, true, false, 0),
 		newLinkScenario("ref-counted 2x2 counts<=2, (op; delete) per tx", []string{"#a1", "#a2"}, []string{"#b1", "#b2"}, false, true, 2),
+		// stores whose only link collection is the ref-counted one
+		newRcOnlyScenario("ref-counted 2x2 counts<=2, no plain link collection, (op; delete) per tx", []string{"#a1", "#a2"}, []string{"#b1", "#b2"}, 2),
+		// ids one of which is a prefix of the other (the byte scan then only applies to the longer id)
+		newLinkScenario("links 2x2, prefix-related ids, (op; delete) per tx", []string{"#a1", "#a1x"}, []string{"#b1", "#b1x"}, true, false, 0),
 	} {
 		ls := ls
 		lprogs := explore.SingleOps(len(ls.Ops()))
@@ -105,7 +109,11 @@ func C06(tier string) int {
 			if err := boltz.ValidateDeleted(tx, id); err != nil {
 				return fmt.Errorf("ValidateDeleted(%s): %v", id, err)
 			}
-			if where := post.ContainsBytes([]byte(id)); len(where) > 0 {
+			prefixOfAnother := false
+			for _, other := range append(append([]string{}, ls.aIds...), ls.bIds...) {
+				prefixOfAnother = prefixOfAnother || (other != id && strings.HasPrefix(other, id))
+			}
+			if where := post.ContainsBytes([]byte(id)); len(where) > 0 && !prefixOfAnother {
 				return fmt.Errorf("id %s still occurs after delete: %v", id, where)
 			}
 			return nil
